@@ -1,0 +1,186 @@
+//go:build verif
+
+// Contracts for the deductive verifier in /verif (govc). Comments only.
+
+package martian
+
+//@ globalinv errClose != nil
+
+// ---- accounting state (ghost): only the functions below change it ----
+//@ ghost ivar nRead() int
+//@ ghost ivar nWrote() int
+//@ ghost ivar wroteStatus() int
+//@ ghost ivar upstream() int
+//@ ghost ivar modReqFailed() bool
+//@ ghost ivar sawClosing() bool
+
+// The two trace hooks: one completion report per call (the hook body is user code).
+//@ func (*Proxy).traceReadRequest
+//@ trusted
+//@ modifies *, nRead()
+//@ preserves http.Response.StatusCode http.Response.Close http.Response.Request http.Request.Method http.Request.Close http.Response.Header http.Request.Header http.Request.URL http.Request.Body http.Response.Body proxyConn.* Proxy.* bufio.ReadWriter.*
+//@ ensures nRead() == old(nRead()) + 1
+
+//@ func (*Proxy).traceWroteResponse
+//@ trusted
+//@ modifies *, nWrote(), wroteStatus()
+//@ preserves http.Response.StatusCode http.Response.Close http.Response.Request http.Request.Method http.Request.Close http.Response.Header http.Request.Header http.Request.URL http.Request.Body http.Response.Body proxyConn.* Proxy.* bufio.ReadWriter.*
+//@ ensures nWrote() == old(nWrote()) + 1
+//@ ensures res != nil ==> wroteStatus() == old(res.StatusCode)
+
+// Reading the next request (net/http; deadlines are C15's subject).
+//@ func (*proxyConn).readRequest
+//@ trusted
+//@ modifies *
+//@ preserves proxyConn.* Proxy.* bufio.ReadWriter.*
+//@ ensures result1 == nil ==> result0 != nil && result0.Body != nil && result0.URL != nil && result0.Header != nil
+
+//@ func (*Proxy).closing
+//@ trusted
+//@ modifies sawClosing()
+//@ ensures sawClosing() == result
+
+// The request side of the modifier stack: the outcome is remembered.
+//@ func (*Proxy).modifyRequest
+//@ trusted
+//@ modifies *, modReqFailed()
+//@ preserves proxyConn.* Proxy.* bufio.ReadWriter.* http.Response.StatusCode http.Response.Request http.Request.Method http.Response.Header http.Request.Header http.Request.URL http.Request.Body http.Response.Body
+//@ ensures modReqFailed() == (result != nil)
+
+// (assumption: response modifiers do not rewrite the status code or detach the request)
+//@ func (*Proxy).modifyResponse
+//@ trusted
+//@ modifies *
+//@ preserves proxyConn.* Proxy.* bufio.ReadWriter.* http.Response.StatusCode http.Response.Request http.Request.Method http.Response.Header http.Request.Header http.Request.URL http.Request.Body http.Response.Body
+
+// Upstream activity: a round trip, a CONNECT dial.
+//@ func (*Proxy).roundTrip
+//@ trusted
+//@ modifies *, upstream()
+//@ preserves proxyConn.* Proxy.* bufio.ReadWriter.*
+//@ ensures upstream() == old(upstream()) + 1
+//@ ensures result1 == nil ==> result0 != nil && result0.Body != nil && result0.Header != nil
+
+//@ func (*Proxy).Connect
+//@ trusted
+//@ modifies *, upstream()
+//@ preserves proxyConn.* Proxy.* bufio.ReadWriter.*
+//@ ensures upstream() == old(upstream()) + 1
+//@ ensures result2 == nil ==> result0 != nil && result0.Header != nil && result0.Body != nil && result1 != nil
+//@ ensures result0 != nil ==> result0.Body != nil
+
+// Locally generated error responses are never 1xx/2xx.
+//@ func (*Proxy).errorResponse
+//@ trusted
+//@ modifies *
+//@ preserves proxyConn.* Proxy.* bufio.ReadWriter.*
+//@ ensures result != nil && result.Header != nil && result.Request == req && result.StatusCode >= 400
+
+//@ func maybeConnectErrorResponse
+//@ trusted
+//@ pure
+//@ ensures result != nil ==> result.Header != nil && result.StatusCode / 100 != 2 && result.StatusCode != 101 && result.Request != nil
+
+//@ func (*Proxy).shouldMITM, (*Proxy).fixRequestScheme, upgradeType, shouldTerminateTLS, isClosedConnError, proxyutil.Warning
+//@ trusted
+//@ modifies *
+//@ preserves proxyConn.* Proxy.* bufio.ReadWriter.* http.Response.StatusCode http.Response.Request http.Request.Method http.Response.Header http.Request.Header http.Request.URL http.Request.Body http.Response.Body
+
+//@ func newConnectResponse
+//@ trusted
+//@ pure
+//@ ensures result != nil && result.Request == req && result.Header != nil && result.StatusCode == 200
+
+// skipTraceWroteResponse: only a flushed CONNECT 2xx or 101 postpones the report.
+//@ func skipTraceWroteResponse
+//@ property C13 C02
+//@ requires res != nil && res.Request != nil
+//@ pure
+//@ ensures result == (err == nil && ((res.Request.Method == "CONNECT" && res.StatusCode / 100 == 2) || res.StatusCode == 101))
+
+// ---- response framing decisions (C02) ----
+
+// L2.1: header-only iff HEAD, 1xx, 204 or 304 (RFC 7230 section 3.3.3).
+//@ func isHeaderOnlySpec
+//@ property C02
+//@ requires res != nil && res.Request != nil
+//@ pure
+//@ ensures result == (res.Request.Method == "HEAD" || res.StatusCode / 100 == 1 || res.StatusCode == 204 || res.StatusCode == 304)
+
+// chunk iff HTTP/1.1, unknown length and a body is allowed.
+//@ func shouldChunk
+//@ property C02
+//@ requires res != nil && res.Request != nil
+//@ pure
+//@ ensures result == (res.ProtoMajor == 1 && res.ProtoMinor == 1 && res.ContentLength == -1 && !(res.Request.Method == "HEAD" || res.StatusCode / 100 == 1 || res.StatusCode == 204 || res.StatusCode == 304))
+
+//@ ghost var nFlush(flusher) int
+//@ func (flusher).Flush as (f flusher) (err error)
+//@ trusted
+//@ modifies nFlush(f)
+//@ ensures nFlush(f) == old(nFlush(f)) + 1
+
+// L2.5: Write hands the bytes to the inner writer unchanged and returns its
+// count; whenever the two-byte pattern occurs in this write - or is completed
+// by its first byte after the previous write's last byte - Flush is called
+// before returning, so an event or chunk is never held back.
+//@ func (*patternFlushWriter).Write
+//@ property C02
+//@ requires w != nil && w.w != nil && w.f != nil && !wrFailed(w.w)
+//@ modifies wlen(w.w), wdata, wrFailed(w.w), nFlush(w.f), w.last
+//@ ensures 0 <= n && n <= len(p) && wlen(w.w) == old(wlen(w.w)) + n
+//@ ensures forall i int :: 0 <= i && i < n ==> wdata(w.w, old(wlen(w.w)) + i) == p[i]
+//@ ensures !wrFailed(w.w) && (exists i int :: 0 <= i && i + 1 < len(p) && p[i] == w.pattern[0] && p[i+1] == w.pattern[1]) ==> nFlush(w.f) == old(nFlush(w.f)) + 1
+//@ ensures !wrFailed(w.w) && old(w.last) == w.pattern[0] && n > 0 && p[0] == w.pattern[1] ==> nFlush(w.f) == old(nFlush(w.f)) + 1
+//@ ensures !wrFailed(w.w) ==> w.last == ite(n > 0, p[n - 1], 0)
+//@ ensures nFlush(w.f) <= old(nFlush(w.f)) + 1
+
+// ---- writing responses and accounting (C13, C02 L2.4, C11 L11.3) ----
+
+// I/O on the client connection and message serialisation (net, bufio, net/http):
+// arbitrary effects on memory, but they never rewrite the status, method or
+// close flags of the messages they are given.
+//@ func (net.Conn).SetWriteDeadline, (net.Conn).SetReadDeadline, (*bufio.ReadWriter).Flush, (*bufio.Writer).Flush, (*http.Response).Write, writeConnectOKResponse, writeHeaderOnlyResponse, isTextEventStream, newPatternFlushWriter, (*proxyConn).writeResponse$1, drainBuffer, bicopy, ContextDuration, (*http.Request).Context, (io.Closer).Close, (io.ReadCloser).Close, (io.ReadWriteCloser).Close
+//@ trusted
+//@ modifies *
+//@ preserves http.Response.StatusCode http.Response.Close http.Response.Request http.Request.Method http.Request.Close http.Response.Header http.Request.Header http.Request.URL http.Request.Body http.Response.Body proxyConn.* Proxy.* bufio.ReadWriter.*
+
+//@ pred deferredReport(method string, status int) = (method == "CONNECT" && status / 100 == 2) || status == 101
+
+// writeResponse: exactly one completion report with the status that was
+// written, except for a successfully flushed CONNECT 2xx / 101 whose report
+// is made when the tunnel ends; nil is returned only if the response was
+// flushed and the connection may be reused (never while shutting down).
+//@ func (*proxyConn).writeResponse
+//@ property C13 C02 C11
+//@ requires p != nil && p.Proxy != nil && p.conn != nil && p.brw != nil && p.brw.Writer != nil && res != nil && res.Request != nil && res.Header != nil
+//@ modifies *, nWrote(), wroteStatus(), sawClosing()
+//@ ensures nWrote() == old(nWrote()) || nWrote() == old(nWrote()) + 1
+//@ ensures !deferredReport(old(res.Request.Method), old(res.StatusCode)) ==> nWrote() == old(nWrote()) + 1 && wroteStatus() == old(res.StatusCode)
+//@ ensures nWrote() == old(nWrote()) + 1 ==> wroteStatus() == old(res.StatusCode)
+//@ ensures deferredReport(old(res.Request.Method), old(res.StatusCode)) && nWrote() == old(nWrote()) + 1 ==> result != nil
+//@ ensures sawClosing() ==> result != nil
+//@ ensures old(res.Request.Close) && !(old(res.Request.Method) == "CONNECT" && old(res.StatusCode) / 100 == 2) ==> result != nil
+
+// writeErrorResponse: a locally generated (or relayed upstream-proxy) error is
+// reported exactly once.
+//@ func (*proxyConn).writeErrorResponse
+//@ property C13 C12
+//@ requires p != nil && p.Proxy != nil && p.conn != nil && p.brw != nil && p.brw.Writer != nil && req != nil
+//@ modifies *, nWrote(), wroteStatus(), sawClosing()
+//@ ensures nWrote() == old(nWrote()) + 1
+
+// tunnel: the reply is written; whether the copy happens or not, the exchange
+// is reported complete exactly once (here or by writeResponse on failure).
+//@ func (*proxyConn).tunnel
+//@ property C13 C03
+//@ requires p != nil && p.Proxy != nil && p.conn != nil && p.brw != nil && p.brw.Writer != nil && res != nil && res.Request != nil && res.Header != nil
+//@ requires deferredReport(res.Request.Method, res.StatusCode)
+//@ modifies *, nWrote(), wroteStatus(), sawClosing()
+//@ ensures nWrote() == old(nWrote()) + 1
+
+//@ func (*proxyConn).handleUpgradeResponse
+//@ property C13 C03
+//@ requires p != nil && p.Proxy != nil && p.conn != nil && p.brw != nil && p.brw.Writer != nil && res != nil && res.Request != nil && res.Header != nil && res.StatusCode == 101
+//@ modifies *, nWrote(), wroteStatus(), sawClosing()
+//@ ensures nWrote() == old(nWrote()) + 1 && result != nil
